@@ -11,8 +11,6 @@ if hasattr(sys, "set_int_max_str_digits"):
     sys.set_int_max_str_digits(0)          # products of 150 multi-limb moduli are printed in decimal
 
 AREA = "C14"
-SITE_COPY = "IntRNSsystem::IntRNSsystem(const IntRNSsystem&)"
-KLASS_COPY = "copied system, size>=2"
 SITE_CRA = "ChineseRemainder<Ring,Domain,true>::operator()"
 KLASS_CRA = "result outside [0, M*D)"
 SITE_RU = "RNSsystem<Integer,Modular<ruint<7>>>::RingToRns"
@@ -626,10 +624,19 @@ def run_resilient(binary, lines, timeout=1500, max_restarts=40, notes=None):
                 -> tooling: inconclusive, listed in the evidence, never counted as a pass or as a violation
     A case that misbehaved in the stream but answers when run alone keeps that answer; the event is noted."""
     notes = notes if notes is not None else []
-    out, start, restarts, err = [], 0, 0, ""
-    budget = int(os.environ.get("C14_CPU_BUDGET", "60"))
+    out, start, restarts, err, hangs = [], 0, 0, "", 0
+    budget = int(os.environ.get("C14_CPU_BUDGET", "20"))        # CPU seconds per case in the stream (cases take milliseconds); 5x when re-run alone
     while start < len(lines):
-        rc, o, e = vf.run_lines(binary, "".join(l + "\n" for l in lines[start:]), timeout=timeout)
+        if hangs >= 12:
+            out += ["KILLED"] * (len(lines) - len(out))          # enough concrete hanging inputs: the rest of the stream is not run (floor says so)
+            notes.append("stream stopped after 12 cases that do not return")
+            break
+        env_budget = budget if hangs < 3 else 5                # after 3 confirmed hangs the stream goes on with a short budget
+        os.environ["C14_CPU_BUDGET"] = str(env_budget)
+        try:
+            rc, o, e = vf.run_lines(binary, "".join(l + "\n" for l in lines[start:]), timeout=timeout)
+        finally:
+            os.environ.pop("C14_CPU_BUDGET", None)
         err += e[-500:]
         o = o[:len(lines) - start]
         hang = bool(o) and o[-1] == "HANG" and rc == 42
@@ -643,11 +650,14 @@ def run_resilient(binary, lines, timeout=1500, max_restarts=40, notes=None):
             out += ["TIMEOUT"] * (len(lines) - len(out))
             break
         k = len(out)                                   # the case the process was working on
+        if hang and hangs >= 3:
+            out.append("HANG"); hangs += 1; restarts += 1; start = len(out)     # same behaviour as three cases confirmed alone
+            continue
         rc1, l1 = run_single(binary, lines[k], 5 * budget)
         if rc1 in KILLED_BY_ENV or (rc in KILLED_BY_ENV and rc1 != 0 and rc1 != 42):
             rc1, l1 = run_single(binary, lines[k], 5 * budget)       # once more: the environment may have calmed down
         if l1 == "HANG" and rc1 == 42:
-            out.append("HANG")
+            out.append("HANG"); hangs += 1
         elif rc1 == 0 and l1 is not None:
             out.append(l1)
             notes.append("case %d ended the stream (rc=%s%s) but answers when run alone" % (k, rc, ", HANG" if hang else ""))
@@ -658,7 +668,7 @@ def run_resilient(binary, lines, timeout=1500, max_restarts=40, notes=None):
             out.append("CRASH rc=%s" % rc1)
         restarts += 1
         start = len(out)
-        if restarts >= max_restarts:
+        if restarts >= max_restarts + hangs:
             out += ["CRASH-LIMIT"] * (len(lines) - len(out))
             break
     return out, restarts, err
@@ -944,6 +954,17 @@ def main(tier, replay=None):
                     order=INT_ORDERS[(gi + hi) % len(INT_ORDERS)], grid=True)
             gi += 1
     add_sys("int", "fresh", "Integer", [3, 5], [18, 2], [0], order="ring")
+    # ---- RNSsystem<RING, Domain> with RING = int64_t / double ("every ring type"): small moduli, 4 histories, lengths 1..8
+    for ring in ("i64", "dbl"):
+        for n in (1, 2, 3, 5, 8):
+            for hist in ("fresh", "copywarm", "setwarm", "assigncc"):
+                ps = grid_moduli(n, gi, True); gi += 1
+                rs = grid_residues(ps)
+                a = grid_as(ps)[rng.below(2) * 2] % (1 << 50) * (-1 if rng.chance(1, 2) else 1)
+                o = other(n, "assignsame")
+                body = "%d %s %s %d" % (n, " ".join(map(str, ps)), " ".join(map(str, rs)), a)
+                cases.append({"kind": "ringrns", "hist": hist, "sub": ring, "ps": ps, "rs": rs, "a": a, "impl": "ringrns %s %s %s" % (ring, hist, body),
+                              "model": "ringrns %s %s %s %d %s" % (F_DOM, hist, body, len(o), " ".join(map(str, o)))})
     # ---- RNSsystem::MixedRadixToRing where the code raises GivError: no primes; another number of digits than primes
     for dom in ("mi64", "mint", "mdouble"):
         for ps, dg in (([], []), ([], [1]), ([3, 5], [1, 2, 4]), ([3, 5, 7], [1, 2]), ([3, 5, 7], []), ([3, 5, 7], [1, 2, 3])):
@@ -1213,16 +1234,27 @@ def main(tier, replay=None):
                     else:
                         chk.fail_input("RNSsystem<Integer,%s>::MixedRadixToRing" % CXX[c["sub"]], "%d digits on %d primes" % (len(dg), len(ps)), c, want, il,
                                        "GivError expected for a system without primes / a digit array of another size; the value otherwise")
+            elif kind == "ringrns" and not il.startswith(("CRASH", "HANG", "EXCEPTION", "BAD-")):
+                ps, rs, a = c["ps"], c["rs"], c["a"]
+                V = crt_oracle(ps, rs)
+                exp = [mixed_digits(ps, V), [V], [a % p for p in ps], [a % prod(ps)]]
+                exp_toks = flat(exp)
+                chk.count((kind, c["sub"], c["hist"], tuple(ps), tuple(rs)), nontrivial=len(ps) >= 2)
+                cls = "RNSsystem<%s>" % ("int64_t,Modular<int32_t>" if c["sub"] == "i64" else "double,Modular<double>")
+                bump(cls + " obtained by " + c["hist"])
+                if itoks != exp_toks:
+                    spec_ok = False
+                    chk.fail_input(cls + "::RnsToRing/RingToRns", "obtained by %s, %d moduli" % (c["hist"], len(ps)), c, exp, il, "RING other than Integer: differs from the CRT value / residues")
             elif il == "HANG":
                 spec_ok = False
-                cls = {"lift": "ChineseRemainder (lifting chain)", "int": "IntRNSsystem", "rns": "RNSsystem<Integer,%s>" % CXX.get(c.get("sub"), "?"), "fixed": "RNSsystemFixed<Integer>",
+                cls = {"ringrns": "RNSsystem<RING != Integer>", "lift": "ChineseRemainder (lifting chain)", "int": "IntRNSsystem", "rns": "RNSsystem<Integer,%s>" % CXX.get(c.get("sub"), "?"), "fixed": "RNSsystemFixed<Integer>",
                        "cra": "ChineseRemainder", "poly": "Poly1CRT<%s>" % PCXX.get(c.get("sub"), "?")}[kind]
                 chk.count((kind, "hang", i), nontrivial=False)
                 chk.fail_input(cls + " (does not return)", "obtained by %s" % c.get("hist", ""), c, "a result", il,
                                "the call used up its CPU-time budget in the stream and again when run alone with 5 times the budget (CPU time is load-independent)")
             elif il.startswith(("CRASH", "EXCEPTION", "BAD-")):
                 spec_ok = False
-                cls = {"lift": "ChineseRemainder (lifting chain)", "int": "IntRNSsystem", "rns": "RNSsystem<Integer,%s>" % CXX.get(c.get("sub"), "?"), "fixed": "RNSsystemFixed<Integer>",
+                cls = {"ringrns": "RNSsystem<RING != Integer>", "rnsexc": "RNSsystem::MixedRadixToRing", "lift": "ChineseRemainder (lifting chain)", "int": "IntRNSsystem", "rns": "RNSsystem<Integer,%s>" % CXX.get(c.get("sub"), "?"), "fixed": "RNSsystemFixed<Integer>",
                        "cra": "ChineseRemainder", "poly": "Poly1CRT<%s>" % PCXX.get(c.get("sub"), "?")}[kind]
                 chk.count((kind, "crash", i), nontrivial=False)
                 chk.fail_input(cls + " (process died or threw)", "obtained by %s" % c.get("hist", ""), c, "a result", il,
@@ -1466,8 +1498,8 @@ def main(tier, replay=None):
                        % max(lens_big))
     chk.cov["traces_validated_against_impl"] = ncorr
     # ---- the floor: what a run must have compared to count as a run of this check (tooling problems must not look like a pass)
-    FLOOR = {"int": 900, "rns": 900, "fixed": 200, "cra": 60, "lift": 40, "poly": 120, "rnsexc": 15, "fixedcopy": 150, "craassign": 30} if quick else \
-            {"int": 2500, "rns": 5000, "fixed": 800, "cra": 1000, "lift": 800, "poly": 1500, "rnsexc": 15, "fixedcopy": 300, "craassign": 200}
+    FLOOR = {"int": 900, "rns": 900, "fixed": 200, "cra": 60, "lift": 40, "poly": 120, "rnsexc": 15, "ringrns": 40, "fixedcopy": 150, "craassign": 30} if quick else \
+            {"int": 2400, "rns": 5000, "fixed": 800, "cra": 1000, "lift": 800, "poly": 1500, "rnsexc": 15, "ringrns": 40, "fixedcopy": 300, "craassign": 200}
     if replay:
         FLOOR = {}
     for k, need in FLOOR.items():
@@ -1485,7 +1517,15 @@ def main(tier, replay=None):
     chk.cov["call_forms"] = dict(sorted(forms.items()))
     chk.cov["distribution"] = dist
     chk.cov["source_facts"] = {k: (v if isinstance(v, (str, list)) else str(v)) for k, v in facts.items()}
-    applicable = {"copy": "C14_int_copy_from_primes_refuted" if facts["cksrc"] == "primes" else "C14_int_history_independent + C14_int_end_to_end",
+    # the table of unrelated primes exists twice (here and in c14_rns.C): compare them on every run
+    rco, oth, _ = vf.run_lines(himpl, "others\n")
+    if rco == 0 and oth and [int(x) for x in oth[0].split()] != OTHER:
+        chk.broke("tooling: the table OTHER of checks/C14.py and other_primes() of harness/c14_rns.C differ")
+    applicable = {"first digit of IntRNSsystem::RnsToMixedRadix": ("C14_int_mixed_radix_any_residues + C14_int_end_to_end_any_residues" if facts["int_head"] == "reduced"
+                                                                   else "C14_int_mixed_radix (first residue canonical) + C14_int_mixed_radix_unreduced_head_refuted"),
+                  "left leaf of RNSsystemFixed": ("C14_fixed_tree_any_residues" if facts["fixed_leaf"] == "reduced" else "C14_fixed_tree (canonical residues) + C14_fixed_tree_unreduced_leaf_refuted"),
+                  "operator= / copy / setPrimes": "C14_int/dom/fixed_history_independent at the facts read (%s)" % json.dumps(facts["model_parameters"]),
+                  "copy": "C14_int_copy_from_primes_refuted" if facts["cksrc"] == "primes" else "C14_int_history_independent + C14_int_end_to_end",
                   "converting constructor": "C14_int_ctor_presized_refuted" if facts["ttck"] == "sized" else "C14_int_history_independent",
                   "functor": "C14_functor_unrepaired_range_refuted + C14_functor_unrepaired_congruent" if facts["cra_variant"] == "reduce" else "C14_functor_canonical"}
     chk.cov["theorems_applicable_to_current_source"] = applicable
